@@ -297,7 +297,9 @@ cfg_params = st.fixed_dictionaries({
 def walk_ops(lossy):
     trig = st.builds(to_op, st.sampled_from(TRIGGERS), st.sampled_from(['a', 'b']), st.integers(0, 3))
     deliver = st.builds(lambda i: ['deliver', i], st.integers(0, 3))
-    base = [trig, trig, deliver, deliver, deliver]
+    late = st.builds(lambda t, s_, k: [t, s_, k], st.sampled_from(['rekey_ike_any', 'del_ike_any', 'dpd_any']), st.sampled_from(['a', 'b']),
+                     st.integers(0, 2))
+    base = [trig, trig, deliver, deliver, deliver, late]
     if lossy:
         base += [st.builds(lambda i: ['drop', i], st.integers(0, 3)), st.builds(lambda i: ['dup', i], st.integers(0, 3)),
                  st.builds(lambda k: ['old', k], st.integers(0, 60)),
